@@ -160,6 +160,16 @@ def _h_fixed8(key, depth=1):
     return out[:max(8, depth)]
 
 
+def _h_depthdep(key, depth=1):
+    """a hand-written strategy whose VALUES depend on the requested depth (one digest cut into `depth` slices): not prefix-stable -
+    nothing requires that of a user's strategy, every structure always asks with its own fixed depth"""
+    kb = _as_bytes(key)
+    dg = hashlib.sha512(kb + bytes([depth % 251])).digest()
+    while len(dg) < 8 * depth:
+        dg += hashlib.sha512(dg).digest()
+    return [int.from_bytes(dg[8 * i: 8 * i + 8], "big") for i in range(depth)]
+
+
 def _h_tiny(key, depth=1):
     """values in 0..3 only: everything collides in any geometry"""
     kb = _as_bytes(key)
@@ -224,6 +234,8 @@ def hash_by_name(name):
         f = _h_tiny
     elif name == "fixed8":
         f = _h_fixed8
+    elif name == "depthdep":
+        f = _h_depthdep
     elif name == "falsy_salted":
         f = FalsyCallable(_h_salted)
     elif name == "fnv_first":
@@ -240,7 +252,7 @@ def hash_by_name(name):
     return f
 
 
-GOOD_HASHES = ["default", "fnv", "md5", "sha256", "dec_int", "dec_bytes", "salted", "wide", "signed", "fnv_first", "dec_fnv", "falsy_salted"]
+GOOD_HASHES = ["default", "fnv", "md5", "sha256", "dec_int", "dec_bytes", "salted", "wide", "signed", "fnv_first", "dec_fnv", "falsy_salted", "depthdep"]
 DEGENERATE_HASHES = ["coincide", "bylen", "ident", "pairs", "tiny"]
 ALL_HASHES = GOOD_HASHES + DEGENERATE_HASHES
 
